@@ -273,6 +273,25 @@ def _observe(ctx, rows, cols, entries, seed, origin):
         got = _call(lambda: [bool(x) for x in is_connection(np.array(inr), cl)])
         if got != [r for r in impl["ic1"] if isinstance(r, bool)]:
             bad("is_connection", f"batch over in-range edges answers {got}, one-edge answers differ", pairs=inr)
+    # ---- the batch edge test on the library's OWN edge arrays (int8, as the tokenizers pass them): every lattice edge / every listed
+    #      connection, both orientations; narrow-integer index arithmetic shows from 12x12 (11*12+11 > 127)
+    if judge and rows * cols <= 400:
+        try:
+            from maze_dataset.utils import lattice_connection_array
+            natives = [("as_adj_list()", m.as_adj_list(shuffle_d0=False, shuffle_d1=False))]
+            if rows == cols: natives.append((f"lattice_connection_array({rows})", lattice_connection_array(rows)))
+            for label, arr in natives:
+                arr = np.asarray(arr)
+                if arr.size == 0: continue
+                for orient, a2 in (("", arr), (" reversed", arr[:, ::-1, :])):
+                    got = [bool(x) for x in is_connection(a2, cl)]
+                    for e, g in zip(a2.tolist(), got):
+                        a, b = tuple(e[0]), tuple(e[1])
+                        if g != orc.connected(a, b):
+                            bad("is_connection", f"is_connection on {label}{orient} (dtype {arr.dtype}) says {g} for edge {a}-{b}, the connection structure says {orc.connected(a, b)}", a=a, b=b)
+                            break
+        except Exception as e:
+            bad("is_connection", f"is_connection on the library's own edge arrays raised {type(e).__name__}: {str(e)[:120]}")
     # ---- cells: neighbours, degrees, nodes, component
     ring = sorted({(a[0] + d[0], a[1] + d[1]) for a in cells for d in MASK_ANY_ORDER} - set(cells))
     ncells = cells + (ring if len(ring) <= 16 else rng.sample(ring, 8))
